@@ -1,5 +1,6 @@
 import KoordVerif.Common.Proto
 import KoordVerif.Model.C10
+import KoordVerif.Model.C10Exec
 /-
 Driver for C10.  One op line per case (integer tokens):
   budget <cap> <alloc> <annoKind> <annoResourcesCpu> <annoReservedCPUsCount> <thr> <hasMin> <min> <nodeUsed> <np> (<hasMeta> <qos> <kubeBE> <used>)* <na> (<qos> <base> <used>)*
@@ -12,6 +13,8 @@ Driver for C10.  One op line per case (integer tokens):
   quota <budgetMilli> <cur> <capMilli>
       -> quota <q>                      (content of cpu.cfs_quota_us afterwards)
   rinit / rbudget / round: one history of suppressBECPU rounds, see `stepLine`
+  xinit / xext / xextq / xage / xround: one history of rounds over individual cgroup files with the executor cache,
+      outside writers, late files and the force-update interval (Model/C10Exec.lean), see `stepLine`
 The float parameters are Lean runtime `Float` (IEEE binary64 as Go's float64).
 -/
 namespace KoordVerif.C10
@@ -179,12 +182,37 @@ def runLine (line : String) : List String :=
       -> set / pod / cont / quota lines  |  panic -/
 structure DSt where
   st : RState := ⟨[], [], [], -1, false⟩
+  xst : XState := ⟨[], ⟨some (-1), none⟩, false⟩
+  xf : XFile (List Int) := ⟨none, none⟩
   budget : Int := 0
   cap : Int := 0
   dead : Bool := false
 
 def showRState (st : RState) : List String :=
   [showList "set" (sortDedup st.root), showList "pod" (sortDedup st.pod), showList "cont" (sortDedup st.cont), s!"quota {st.quota}"]
+
+/-- `(<level> <state> <n> <cpu>*)*`; state 0 = directory missing, 1 = directory without the file, 2 = file present. -/
+def takeXFiles : Nat → List Int → Option (List XF × List Int)
+  | 0, xs => some ([], xs)
+  | k + 1, lvl :: stt :: m :: rest =>
+    if m < 0 then none else
+    match takeN m.toNat rest with
+    | none => none
+    | some (cs, rest') =>
+      match takeXFiles k rest' with
+      | none => none
+      | some (fs, r) =>
+        some ({ level := lvl.toNat, listed := stt ≠ 0, f := { content := if stt = 2 then some (canon cs) else none } } :: fs, r)
+  | _, _ => none
+
+def showXState (st : XState) : List String :=
+  let rec go (k : Nat) : List XF → List String
+    | [] => []
+    | x :: xs =>
+      (match x.f.content with
+       | none => s!"f{k} none"
+       | some cs => showList s!"f{k}" cs) :: go (k + 1) xs
+  go 0 st.files ++ [match st.quota.content with | none => "quota none" | some q => s!"quota {q}"]
 
 def stepLine (d : DSt) (line : String) : DSt × List String :=
   match toks line with
@@ -217,6 +245,68 @@ def stepLine (d : DSt) (line : String) : DSt × List String :=
             match roundStep floatOps d.st i with
             | none => ({ d with dead := true }, ["panic"])
             | some st' => ({ d with st := st' }, showRState st')
+        | _ => (d, ["bad-op"])
+      else if kind == "xinit" then
+        -- xinit <quota> <nfiles> (<level> <state> <n> <cpu>*)*
+        match xs with
+        | q :: nf :: rest =>
+          if nf < 0 then (d, ["bad-op"]) else
+          match takeXFiles nf.toNat rest with
+          | some (fs, []) => ({ d with xst := ⟨fs, ⟨some q, none⟩, false⟩, dead := false }, [])
+          | _ => (d, ["bad-op"])
+        | _ => (d, ["bad-op"])
+      else if kind == "xext" then
+        -- xext <idx> <state> <n> <cpu>*   (an outside writer; no output)
+        match xs with
+        | k :: stt :: m :: cs =>
+          if k < 0 ∨ m.toNat ≠ cs.length ∨ k.toNat ≥ d.xst.files.length then (d, ["bad-op"]) else
+          ({ d with xst := extCpuset d.xst k.toNat (stt ≠ 0) (if stt = 2 then some cs else none) }, [])
+        | _ => (d, ["bad-op"])
+      else if kind == "xextq" then
+        match xs with
+        | [q] => ({ d with xst := extQuota d.xst q }, [])
+        | _ => (d, ["bad-op"])
+      else if kind == "xage" then
+        match xs with
+        | [] => ({ d with xst := ageAll d.xst }, [])
+        | _ => (d, ["bad-op"])
+      else if kind == "xfinit" then
+        -- single-file executor histories: xfinit <state> <n> <cpu>* ; xfw <cacheable> <n> <cpu>* -> xf <cpu>* | xf none ;
+        -- xfext <state> <n> <cpu>* (outside writer / file removed) ; xfage
+        match xs with
+        | stt :: m :: cs =>
+          if m.toNat ≠ cs.length then (d, ["bad-op"]) else
+          ({ d with xf := ⟨if stt = 2 then some (canon cs) else none, none⟩ }, [])
+        | _ => (d, ["bad-op"])
+      else if kind == "xfw" then
+        match xs with
+        | c :: m :: cs =>
+          if m.toNat ≠ cs.length then (d, ["bad-op"]) else
+          let x := execWrite (c ≠ 0) codeShape.cacheOnIgnored d.xf (canon cs)
+          ({ d with xf := x }, [match x.content with | none => "xf none" | some v => showList "xf" v])
+        | _ => (d, ["bad-op"])
+      else if kind == "xfext" then
+        match xs with
+        | stt :: m :: cs =>
+          if m.toNat ≠ cs.length then (d, ["bad-op"]) else
+          ({ d with xf := { d.xf with content := if stt = 2 then some (canon cs) else none } }, [])
+        | _ => (d, ["bad-op"])
+      else if kind == "xfage" then
+        ({ d with xf := d.xf.age }, [])
+      else if kind == "xround" then
+        if d.dead then (d, ["panic"]) else
+        match xs with
+        | slo :: qm :: nn :: npm :: nm :: im :: rest1 =>
+          match takeEnv rest1 with
+          | none => (d, ["bad-op"])
+          | some e =>
+            let i : RoundIn :=
+              { sloKind := slo, quotaMode := (qm ≠ 0), nodeNil := (nn ≠ 0), nPodMetas := npm.toNat,
+                nodeMetric := (nm ≠ 0), infoMissing := (im ≠ 0), budget := d.budget, capMilli := d.cap,
+                procs := e.procs, pods := e.pods, reserved := e.res, sysExcl := e.sys, topoNil := e.topoNil, kp := e.kp }
+            match roundStepX floatOps codeShape d.xst i with
+            | none => ({ d with dead := true }, ["panic"])
+            | some st' => ({ d with xst := st' }, showXState st')
         | _ => (d, ["bad-op"])
       else (d, runLine line)
   | _ => (d, ["bad-op"])
